@@ -33,6 +33,14 @@ def check(ctx: Ctx) -> str:
     for meth, frag in wants.items():
         fn = tpl.methods[meth]
         ctx.check(frag in ast.unparse(fn), f"Template.{meth}", f"environment:Template.{meth}", "source of the text", f"Template.{meth} must contain `{frag}`", f"src/jinja2/environment.py:{fn.lineno}")
+    # ... and from the same data: every entry point builds its context from
+    # dict(*args, **kwargs) (keywords win over a positional mapping everywhere)
+    for meth in ("render", "render_async", "generate", "generate_async"):
+        fn = tpl.methods[meth]
+        ncs = [c for c in astq.calls(fn) if astq.callee(c) == "self.new_context"]
+        okd = len(ncs) == 1 and len(ncs[0].args) == 1 and ast.unparse(ncs[0].args[0]) == "dict(*args, **kwargs)" and not ncs[0].keywords
+        ctx.check(okd, f"Template.{meth}:data", f"environment:Template.{meth}", f"context data `{ast.unparse(ncs[0].args[0]) if ncs and ncs[0].args else '?'}`",
+                  f"Template.{meth} must build its context as self.new_context(dict(*args, **kwargs)) like the other entry points; a different merge order makes a positional mapping override keyword arguments for this entry point only, so render / generate / stream disagree on the same call", f"src/jinja2/environment.py:{fn.lineno}")
     ga = tpl.methods["generate_async"]
     fors = [n for n in ast.walk(ga) if isinstance(n, ast.AsyncFor)]
     ok = len(fors) == 1 and len(fors[0].body) == 1 and ast.unparse(fors[0].body[0]) == f"yield {ast.unparse(fors[0].target)}"
